@@ -437,10 +437,11 @@ func init() {
 		c07WriteFaults(r)
 	}
 	props["C08"] = func(r *Result, d *drv.Driver, tier string, seed int64, replay string) {
-		r.Rule = sessRule("C08 oracle: each registered item invoked exactly once in order with its payload; each item's status/reason/message/payload is its own handler's outcome; the process survives (all runs are in-process); plus batches in which a handler panics with values hostile to rendering (panicking Error/String methods, typed nil errors), and batches in which a handler returns a first result together with its error (half-filled, typed nil, unencodable), and batches with a handler slower than the server's timeouts.")
+		r.Rule = sessRule("C08 oracle: each registered item invoked exactly once in order with its payload; each item's status/reason/message/payload is its own handler's outcome; the process survives (all runs are in-process); plus batches in which a handler panics with values hostile to rendering (panicking Error/String methods, typed nil errors), batches in which a handler RETURNS such an error (typed nil pointer, panicking Error / ResultReason method) or panics with nil, and batches in which a handler returns a first result together with its error (half-filled, typed nil, unencodable), and batches with a handler slower than the server's timeouts.")
 		b, p := sizes(tier)
 		sessionCorrespondence(r, d, seed*31+8, b, p, scriptOpts{maxArr: 6, maxItems: 5}, 150*time.Millisecond, oracleC08)
 		c08EvilPanics(r)
+		c08EvilErrors(r)
 		c08ValueWithError(r)
 		c08SlowHandlers(r)
 		c08Messages(r)
